@@ -29,6 +29,9 @@ RtWhys(e) ==
     IF Encodable(ts) /\ enc.kind = "ok" /\ ~(dec.kind = "ok" /\ Norm(dec.toks) = ts)
       THEN "P:C11:Tokenize(String(),MakeIndices())-does-not-reconstruct-the-tokens" ELSE "ok",
     IF Encodable(ts) /\ enc.kind = "ok" /\ dec.kind = "ok" /\ dec.entSame # 1 THEN "P:C11:entropy-not-carried-through" ELSE "ok",
+    \* decoded again at once with another entropy: same tokens, THAT entropy
+    IF Encodable(ts) /\ enc.kind = "ok" /\ dec.kind = "ok" /\ ~(e.dec2.kind = "ok" /\ Norm(e.dec2.toks) = Norm(dec.toks) /\ e.dec2.entSame = 1)
+      THEN "P:C11:decoding-the-same-string-and-index-again-with-another-entropy-differs" ELSE "ok",
     IF Encodable(ts) /\ enc.kind = "ok" /\
        ~(LET n == Len(ts) IN
            IF AllAtoms(ts) /\ \A i \in DOMAIN ts : Len(ts[i].v) = 1 THEN Len(enc.idx) = 1
